@@ -3,12 +3,12 @@ extern float p@p@gstrf_MemInit(int_t, int_t, superlumt_options_t *, SuperMatrix 
 extern ExpHeader *@p@expanders;
 _Bool nondet_bool(void); extern ExpHeader in_exp[4];
 /* ghost: allocation log, pre-state */
-int g_n_malloc, g_n_free, g_exits; size_t g_malloc_bytes; void *g_exp0; int_t g_nzlu_guess, g_nzu_guess, g_nzl_guess;
+int g_abort_ok; int g_n_malloc, g_n_free, g_exits; size_t g_malloc_bytes; void *g_exp0; int_t g_nzlu_guess, g_nzu_guess, g_nzl_guess;
 extern int g_locks, g_unlocks, g_lock_inits;
 void *superlu_malloc(size_t size) {
   if (g_n_malloc < 1000000) g_n_malloc++; g_malloc_bytes = size;
 #if TABLE_MAY_FAIL
-  if (g_n_malloc == 1 && g_exp0 == 0) return nondet_bool() ? (void*)0 : (void*)in_exp;
+  if (g_n_malloc == 1 && g_exp0 == 0) { if (nondet_bool()) { g_abort_ok = 1; return (void*)0; } return (void*)in_exp; }
 #else
   if (g_n_malloc == 1 && g_exp0 == 0) return in_exp;   /* the expander table request (always the first one) succeeds in this unit */
 #endif
